@@ -392,7 +392,16 @@ func (jp *jobProvider) refreshFile(stat os.FileInfo, filename string, symlink st
 }
 
 func (jp *jobProvider) checkFileWasTruncated(job *Job, size int64) {
+	job.mu.Lock()
+	if !job.isDone {
+		// a worker owns the job (it's queued or being read): seek would overwrite
+		// curOffset in the middle of a read round. The worker detects a truncation
+		// itself when it reaches EOF.
+		job.mu.Unlock()
+		return
+	}
 	lastOffset := job.seek(0, io.SeekCurrent, "check file truncation")
+	job.mu.Unlock()
 
 	if lastOffset > size {
 		jp.truncateJob(job)
